@@ -133,6 +133,14 @@ func (u *Units) Build() *schema.UnitsDefinition {
 // Build constructs the SDK schema through the public constructors. Objects that appear directly
 // as the value of a scope entry become the scope's objects; nothing is shared between calls.
 func (t *Ty) Build() schema.Type {
+	x := t.build()
+	if LitRoute(t) {
+		return Relit(x)
+	}
+	return x
+}
+
+func (t *Ty) build() schema.Type {
 	switch t.T {
 	case "int":
 		return schema.NewIntSchema(optInt(t.Min), optInt(t.Max), t.Units.Build())
@@ -194,6 +202,9 @@ func (t *Ty) Build() schema.Type {
 		var others []*schema.ObjectSchema
 		for _, o := range t.Objs {
 			obj := o.Ty.BuildObject()
+			if LitRoute(o.Ty) {
+				obj = RelitObject(obj)
+			}
 			if o.ID == t.Root {
 				root = obj
 			} else {
@@ -223,7 +234,12 @@ func (t *Ty) BuildObject() *schema.ObjectSchema {
 			}
 			return append(make([]string, 0, len(l)), l...)
 		}
-		ps := schema.NewPropertySchema(p.Ty.Build(), nil, p.Required, own(p.RequiredIf), own(p.RequiredIfNot), own(p.Conflicts), def, nil)
+		var examples []string
+		if n := len(np.Name); n > 0 && np.Name[n-1]%2 == 1 {
+			// documentation only: examples never change what a property accepts or how a rejection is reported
+			examples = []string{"1", "\"x\"", "{\"a\": [1]}"}
+		}
+		ps := schema.NewPropertySchema(p.Ty.Build(), nil, p.Required, own(p.RequiredIf), own(p.RequiredIfNot), own(p.Conflicts), def, examples)
 		if !p.Disabled && len(np.Name) > 0 && np.Name[0]%3 == 0 {
 			// a reason left over on a property that is NOT disabled (a received description may carry
 			// `disabled_reason` with `disabled: false`, or without `disabled`): the flag alone decides
